@@ -148,6 +148,9 @@ type X struct {
 	sample     string
 	panicked   bool
 	stopAll    bool
+	// noncanonical: the token sequence just drawn from an ambiguous alphabet is
+	// not the canonical spelling of its byte string (another execution covers it)
+	noncanonical bool
 }
 
 type fail struct {
@@ -226,12 +229,17 @@ func (x *X) Sample(s string) { x.sample = s }
 // (choice 0 at each position is "stop").
 func (x *X) Tokens(sp spaces.Space, maxLen int) []byte {
 	in := []byte(sp.Prefix)
+	var seq []int
 	for i := 0; i < maxLen; i++ {
 		k := x.ChooseFree(len(sp.Tokens) + 1)
 		if k == 0 {
 			break
 		}
 		in = append(in, sp.Tokens[k-1]...)
+		seq = append(seq, k-1)
+	}
+	if sp.Ambiguous && !sp.Canonical(seq) {
+		x.noncanonical = true
 	}
 	return append(in, sp.Suffix...)
 }
@@ -418,8 +426,15 @@ func (c *Ctx) Inputs(sp spaces.Space, maxLen int, f func(x *X, in []byte)) {
 	if sp.Prefix != "" {
 		doc += fmt.Sprintf(" (every input preceded by %q)", sp.Prefix)
 	}
+	if sp.Ambiguous {
+		doc += " (the alphabet is not uniquely decodable: of all token sequences spelling the same bytes only the shortest, lexicographically first one is executed; the others are counted under reach_counters[noncanonical_spellings_skipped])"
+	}
 	c.Explore(sp.Name, doc, -1, maxLen, func(x *X) {
 		in := x.Tokens(sp, maxLen)
+		if x.noncanonical {
+			x.Count("noncanonical_spellings_skipped")
+			return
+		}
 		f(x, in)
 	})
 }
